@@ -32,6 +32,8 @@ def sol_deriv(terms, n, x):
 
 def coeff_eval(c, x):
     x = np.asarray(x, dtype=float)
+    if c[0] == "scaled":  # ["scaled", factor, inner-spec]: the whole equation multiplied by a constant
+        return c[1] * coeff_eval(c[2], x)
     if c[0] == "const":
         return np.full_like(x, c[1])
     if c[0] == "lin":
@@ -57,6 +59,8 @@ def make_callables(problem, const_as_numbers=True):
     for c in problem["coeffs"]:
         if c[0] == "const" and const_as_numbers:
             coeffs.append(float(c[1]))
+        elif c[0] == "scaled" and c[2][0] == "const" and const_as_numbers:
+            coeffs.append(float(c[1] * c[2][1]))
         else:
             coeffs.append(lambda x, c=c: np.array(coeff_eval(c, x), dtype=float))
     return fx, coeffs
@@ -226,6 +230,11 @@ def gen_problem(rng, with_transform):
         bc = rng.choice([[[0, 0], [1, 0]], [[0, 0], [1, 1]], [[0, 1], [1, 0]]])
     else:
         bc = rng.choice([[[0, 0], [0, 1], [1, 0]], [[0, 0], [1, 0], [1, 1]], [[0, 0], [0, 1], [0, 2]]])
+    # the same equation multiplied through by a constant (1e-10 ... 1e8) has the same solution: coefficients and, through
+    # them, the right-hand side are scaled together (scale invariance of a linear ODE)
+    if rng.random() < 0.3:
+        fac = rng.choice([1e-10, 1e-6, 1e-3, 1e4, 1e8])
+        coeffs = [["scaled", fac, c] for c in coeffs]
     bc = [list(c) for c in bc]
     rng.shuffle(bc)  # the order in which the caller lists the conditions is arbitrary (upper end first, interleaved, ...)
     alts = gen_alternates(rng, tspec, rng.choice([0, 1, 2, 2])) if tspec is not None and tspec[0] != "identity" else []
